@@ -24,6 +24,8 @@ type Case struct {
 	Producer  string           `json:"producer"` // build | writer | lossless
 	InputWrap string           `json:"input_wrap"`
 	Rebuild   bool             `json:"rebuild,omitempty"`
+	// RecordPad: the input tar ends with zero blocks up to a multiple of 10240 bytes, as GNU tar and bsdtar write it
+	RecordPad bool `json:"record_padding,omitempty"`
 }
 
 const (
@@ -41,6 +43,7 @@ func gen(t *rapid.T) Case {
 	}
 	c.Archive = tarmodel.Gen(t, tarmodel.GenOpts{MaxEntries: 14, ChunkSize: cs, Hardlinks: true, Devices: true, Dups: true, DupLinks: true, Spellings: true, Xattrs: true, RootEntry: true, BigIDs: true, ManyChunks: true})
 	c.Producer = rapid.SampledFrom([]string{"build", "build", "build", "writer", "lossless"}).Draw(t, "producer")
+	c.RecordPad = rapid.IntRange(0, 2).Draw(t, "recordpad") == 0
 	// reserved names in the input
 	if rapid.IntRange(0, 3).Draw(t, "reserved") == 0 {
 		names := []string{prefetchLandmark, noPrefetchLandmark, "./" + prefetchLandmark, "a/" + noPrefetchLandmark, tocName, "./" + tocName, "a/" + tocName}
@@ -334,6 +337,10 @@ func run(c Case, ev *pbt.Ev) error {
 	tarBytes, err := c.Archive.Tar()
 	if err != nil {
 		return pbt.Inconclusive("generator produced an archive the standard library refuses: %v", err)
+	}
+	if c.RecordPad && len(tarBytes)%10240 != 0 {
+		tarBytes = append(tarBytes, make([]byte, 10240-len(tarBytes)%10240)...)
+		ev.Class("input-with-record-padding")
 	}
 	input, err := tarmodel.ReadTar(tarBytes)
 	if err != nil {
